@@ -243,9 +243,7 @@ func (p *prog) sep(w *fileBuf) {
 		w.w("\r\n")
 	default:
 		if p.q.term && r.Intn(2) == 0 {
-			// a lone CR is always followed by two blanks: otto's lexer peeks one byte too far and
-			// swallows the character between a CR and a LF ("\r}\n" loses the brace)
-			w.w(Pick(r, []string{"\r  ", "\u2028", "\u2029", "\r\r  ", "\n\r  ", "\u2028\n"}))
+			w.w(Pick(r, []string{"\r", "\u2028", "\u2029", "\r\r", "\n\r", "\u2028\n"}))
 		} else {
 			w.w("\n")
 		}
@@ -819,11 +817,11 @@ func (p *prog) emitRaise(w *fileBuf, li int) {
 		noat(at)
 	case 27:
 		if r.Intn(2) == 0 {
-			at := mark("new ¤RegExp(\"a\", " + Pick(r, []string{"\"gg\"", "\"mm\"", "\"ii\"", "\"gig\""}) + ")")
+			at := mark("new ¤RegExp(\"a\", " + Pick(r, []string{"\"gg\"", "\"mm\"", "\"ii\"", "\"gig\"", "\"x\"", "\"gx\"", "\"y\"", "\"G\""}) + ")")
 			call("KIdent", at)
 			noat(at)
 		} else {
-			call("KIdent", mark("¤RegExp(\"a\", \"gg\")"))
+			call("KIdent", mark("¤RegExp(\"a\", "+Pick(r, []string{"\"gg\"", "\"u\"", "\"im \""})+")"))
 			p.nativeTop("RegExp")
 		}
 	case 28:
@@ -1278,7 +1276,7 @@ func (p *prog) emit(env *Env, qname, how string, r1, r2 runResult) {
 	}
 	txt := fmt.Sprintf("trace limit=%d %s kind=%d %s -> Error()=%q String()=%q panic=%v", p.limit, how, p.kind,
 		strings.Join(srcs, " ; "), r1.errText, r1.str, r1.panicked)
-	env.Add(fmt.Sprintf("CTrace %d %s %s %s (%s) %s %s", landed, Clist(files), Cz(int64(p.limit)), Clist(levels), p.raise, Cbool(hdrOK), Clist(frames)),
+	env.Add(fmt.Sprintf("CTrace %s %s %s (%s) %s %s", Clist(files), Cz(int64(p.limit)), Clist(levels), p.raise, Cbool(hdrOK), Clist(frames)),
 		txt, "trace/"+qname, len(p.levels) >= 2)
 
 	// ---- class facts case: [class of Run's error; class by e.name; instanceof own constructor; instanceof Error;
@@ -1303,7 +1301,7 @@ func (p *prog) emit(env *Env, qname, how string, r1, r2 runResult) {
 			obs[8] = 1
 		}
 	}
-	env.Add(fmt.Sprintf("CFacts %d %d %s", landed, p.kind, Czlist(obs)),
+	env.Add(fmt.Sprintf("CFacts %d %s", p.kind, Czlist(obs)),
 		fmt.Sprintf("facts %s kind=%d main=%q -> Error()=%q in-script=%q", how, p.kind, string(p.main.b), r1.errText, r2.facts), "facts", true)
 }
 
@@ -1755,7 +1753,7 @@ func genSyntax(env *Env, pinned int) {
 	for n := r.Intn(6); n > 0; n-- {
 		sb.WriteString(Pick(r, []string{"var a = 1;", "x = y + 2;", "function f(a){ return a }", "/* c */", "if (x) { y() }", "// line\n", "s = \"str\";", ";"}))
 		if special && r.Intn(2) == 0 {
-			sb.WriteString(Pick(r, []string{"\r  ", "\r\n", "\u2028", "\u2029", " /* é€ */ ", "t = \"日本\";"}))
+			sb.WriteString(Pick(r, []string{"\r", "\r\n", "\u2028", "\u2029", " /* é€ */ ", "t = \"日本\";"}))
 		} else {
 			sb.WriteString(Pick(r, []string{"\n", "\n", " ", "\n   ", "\r\n", "\n\n"}))
 		}
@@ -1937,39 +1935,11 @@ func genFileSet(env *Env, pinned int) {
 	for i, s := range texts {
 		cs[i] = cbytes([]byte(s))
 	}
-	env.Add(fmt.Sprintf("CFileSet %d %s %s %s", landed, Clist(cs), Cz(int64(idx)), obs),
+	env.Add(fmt.Sprintf("CFileSet %s %s %s", Clist(cs), Cz(int64(idx)), obs),
 		fmt.Sprintf("fileset %q Position(%d) -> %s", texts, idx, otxt), "fileset", true)
 }
 
-// which of the proposed repairs (proposed_fixes/C19-*.diff) the tree under test already contains,
-// measured on the pinned witnesses: bit 0 direct eval restores the caller's file, bit 1 malformed
-// RegExp pattern raises SyntaxError, bit 2 FileSet.Position subtracts the base once
-var landed int
-
-func detectLanded() int {
-	n := 0
-	o := RunJS(otto.New(), "function f1(a, b) {\n  eval(\"1\"); f2();\n}\nfunction f2(a, b) { zz; }\nf1();\n")
-	if oe, ok := o.Err.(*otto.Error); ok && strings.Contains(oe.String(), "at f1 (<anonymous>:2:14)\n") {
-		n |= 1
-	}
-	o = RunJS(otto.New(), "new RegExp(\"(\")")
-	if o.Err != nil && strings.HasPrefix(o.Err.Error(), "SyntaxError") {
-		n |= 2
-	}
-	func() {
-		defer func() { _ = recover() }()
-		fs := &file.FileSet{}
-		fs.AddFile("f0.js", "ab")
-		if ps := fs.Position(file.Idx(1)); ps != nil && ps.Line == 1 && ps.Column == 1 {
-			n |= 4
-		}
-	}()
-	return n
-}
-
 func runC19(env *Env) {
-	landed = detectLanded()
-	env.Extra["repairs_already_in_tree"] = landed
 	env.Import = "Otto.C19.Corr"
 	env.Rule = "programs: an error-raising construct of one of 51 kinds placed by a position-tracking generator inside 0-14 nested frames (declared/anonymous/named function expressions, methods, constructors, call/apply/bind, callbacks of 11 built-ins, IIFEs, direct and indirect eval, Function()), 0-3 earlier statements per frame (calls of every callee form, completed evals, caught errors), up to two named files plus eval texts, trace limits -3..15 correlated with the depth, optionally through Otto.Copy; plus the argument-dependent raises (toString radix, toFixed/toExponential/toPrecision digits, new Array(len), length = len) over boundary arguments (range ends, fractions, residues of the legal range modulo 2^31/2^32/2^53/2^63/2^64, negatives, NaN, infinities, numeric strings, objects with valueOf/toString) in both directions; `in`/`instanceof` with operands whose conversion methods log and throw (5 left x 4 right operand kinds, both operators: outcome, class facts and the conversion log); sessions of 2-4 programs on one runtime whose retained errors (Go *otto.Error and caught JS error objects) are all inspected only after the last one was raised; file.Position on random texts/offsets, parser positions of an offending token, uncaught text after name/message mutations, FileSet.Position; non-trivial = distinct case with at least one call frame (traces) or a line break (positions); all text/fileset/facts cases"
 	pins := []func(){}
